@@ -8,6 +8,8 @@ import (
 	"strings"
 	"testing"
 
+	"pgregory.net/rapid"
+
 	"verifharness/internal/ev"
 )
 
@@ -200,6 +202,60 @@ func TestSurvey(t *testing.T) {
 			}
 		}
 		return true
+	})
+	var sigs []string
+	for s := range count {
+		sigs = append(sigs, s)
+	}
+	sort.Strings(sigs)
+	var sb strings.Builder
+	fmt.Fprintf(&sb, "# %d cases, %d signatures\n", total, len(sigs))
+	for _, s := range sigs {
+		fmt.Fprintf(&sb, "%s\t%d\n", s, count[s])
+	}
+	os.WriteFile(path, []byte(sb.String()), 0o644)
+	sb.Reset()
+	for _, s := range sigs {
+		fmt.Fprintf(&sb, "=== %s (%d)\n%s\n", s, count[s], example[s])
+	}
+	os.WriteFile(path+".examples", []byte(sb.String()), 0o644)
+}
+
+// TestSurveyRandom (development aid, C12_SURVEY=<out file>): runs the rapid
+// generators of both units without failing and lists every signature seen.
+func TestSurveyRandom(t *testing.T) {
+	path := os.Getenv("C12_SURVEY")
+	if path == "" {
+		t.Skip("C12_SURVEY not set")
+	}
+	count := map[string]int{}
+	example := map[string]string{}
+	total := 0
+	rapid.Check(t, func(rt *rapid.T) {
+		total++
+		var fails []ev.Outcome
+		if total%8 == 0 {
+			cs := genShared(rt)
+			if out := runShared(cs); out.Err != "" {
+				fails = []ev.Outcome{out}
+			}
+		} else {
+			cs := genCase(rt)
+			func() {
+				defer func() {
+					if r := recover(); r != nil {
+						fails = []ev.Outcome{ev.Fail("panic-in-harness", "%v", r)}
+					}
+				}()
+				fails, _ = evaluate(cs)
+			}()
+		}
+		for _, f := range fails {
+			count[f.Sig]++
+			if _, ok := example[f.Sig]; !ok {
+				example[f.Sig] = f.Err
+			}
+		}
 	})
 	var sigs []string
 	for s := range count {
